@@ -22,7 +22,7 @@ fn versions(lang: Lang) -> Vec<(&'static str, Vec<(&'static str, String)>)> {
     // the same length in every language, and far beyond the first 8 KiB / 64 KiB of the output: one member renamed
     let large_changed = large.replace("pub struct Big699 { pub first_field_of_the_struct: u32", "pub struct Big699 { pub first_field_of_the_strucx: u32");
     debug_assert_ne!(large, large_changed);
-    // order matters: the quick tier takes the first eight (the graphs run with a configuration file: the first six)
+    // order matters: the quick tier takes the first nine (the graphs run with a configuration file: the first six)
     vec![
         ("V0-base", vec![("ws/x/src/lib.rs", format!("{a}\n{b}"))]),
         ("V1-type-added", vec![("ws/x/src/lib.rs", format!("{a}\n{b}\n{c}"))]),
@@ -33,6 +33,17 @@ fn versions(lang: Lang) -> Vec<(&'static str, Vec<(&'static str, String)>)> {
         // the sources of V4 under another configuration (only the graphs run with a configuration file see the difference):
         // other list-valued settings for the same helper
         ("V11-uses-unit-other-configuration", vec![("ws/x/src/lib.rs", format!("{a}\n{unit_user}")), ("cfg/typeshare.toml", "[swift]\ndefault_decorators = [\"Hashable\"]\ncodablevoid_constraints = [\"Equatable\"]\n\n[go]\nuppercase_acronyms = [\"ID\"]\n".to_string())]),
+        // six source files that belong to two crates (symbolic links in the second crate's src): every transition is a fresh
+        // race between the walker threads, and whoever reaches a file first must not decide which output gets its types
+        ("V12-files-shared-by-two-crates", {
+            let mut v: Vec<(&'static str, String)> = vec![("ws/x/src/lib.rs", a.to_string()), ("ws/y/src/lib.rs", format!("use x::Alpha;\n{b}"))];
+            const SHARED: [(&str, &str); 6] = [("ws/x/src/s0.rs", "ws/y/src/l0.rs"), ("ws/x/src/s1.rs", "ws/y/src/l1.rs"), ("ws/x/src/s2.rs", "ws/y/src/l2.rs"), ("ws/x/src/s3.rs", "ws/y/src/l3.rs"), ("ws/x/src/s4.rs", "ws/y/src/l4.rs"), ("ws/x/src/s5.rs", "ws/y/src/l5.rs")];
+            for (i, (real, link)) in SHARED.iter().enumerate() {
+                v.push((real, format!("#[typeshare]\npub struct Shared{i} {{ pub v{i}: u32 }}\n")));
+                v.push((link, format!("->{real}")));
+            }
+            v
+        }),
         ("V9-large-output", vec![("ws/x/src/lib.rs", format!("{a}\n{large}"))]),
         // differs from V9 only near the end of a large output, by bytes only: every file has the same length as before
         ("V10-large-output-tail-changed-same-length", vec![("ws/x/src/lib.rs", format!("{a}\n{large_changed}"))]),
@@ -68,7 +79,15 @@ fn out_rel(lang: Lang, multi: bool) -> String {
 fn step(lang: Lang, multi: bool, loc: &str, version: &[(&'static str, String)], before: &State) -> StepResult {
     let sc = Scratch::new("c17");
     for (p, src) in version {
-        sc.write(p, src.as_bytes());
+        // `-><path>`: a symbolic link to that file of the same tree
+        if let Some(target) = src.strip_prefix("->") {
+            if let Some(dir) = std::path::Path::new(p).parent() {
+                sc.mkdir(&dir.to_string_lossy());
+            }
+            let _ = std::os::unix::fs::symlink(sc.path(target), sc.path(p));
+        } else {
+            sc.write(p, src.as_bytes());
+        }
     }
     let linked = loc == "through-symlink";
     if linked && multi {
@@ -248,9 +267,9 @@ pub fn run(args: &[String]) -> i32 {
     const L: &str = "through-symlink";
     const G: &str = "configured";
     let graphs: Vec<(Lang, bool, &'static str, usize)> = if thorough {
-        ALL_LANGS.iter().flat_map(|l| [(*l, false, P, 12), (*l, true, P, 12), (*l, false, L, 8), (*l, true, L, 8), (*l, false, G, 8), (*l, true, G, 8)]).collect()
+        ALL_LANGS.iter().flat_map(|l| [(*l, false, P, 13), (*l, true, P, 13), (*l, false, L, 9), (*l, true, L, 9), (*l, false, G, 9), (*l, true, G, 9)]).collect()
     } else {
-        vec![(Lang::Swift, true, P, 8), (Lang::Swift, false, P, 8), (Lang::TypeScript, true, P, 8), (Lang::TypeScript, false, P, 8), (Lang::Kotlin, true, P, 8), (Lang::Swift, false, L, 4), (Lang::Go, false, L, 4), (Lang::Swift, true, L, 4), (Lang::Swift, true, G, 6), (Lang::Swift, false, G, 6), (Lang::Go, false, G, 6)]
+        vec![(Lang::Swift, true, P, 9), (Lang::Swift, false, P, 9), (Lang::TypeScript, true, P, 9), (Lang::TypeScript, false, P, 9), (Lang::Kotlin, true, P, 9), (Lang::Swift, false, L, 4), (Lang::Go, false, L, 4), (Lang::Swift, true, L, 4), (Lang::Swift, true, G, 6), (Lang::Swift, false, G, 6), (Lang::Go, false, G, 6)]
     };
     let results = par_map(&graphs, report::threads(), |(l, m, loc, n)| explore_graph(*l, *m, loc, *n, 400));
     let mut states = 0;
